@@ -21,26 +21,38 @@ LEVEL_TEXT = (
     "roots, schema description), for all well-formed schemas with no size bound: building the definitions "
     "print_schema emits gives back exactly the same schema (same order), printing the rebuilt schema gives the "
     "same definitions, the rebuilt schema is well-formed, and find_schema_changes reports nothing; the rule for "
-    "omitting the `schema {}` block is proved consistent with build_ast_schema's root lookup by name. The model "
-    "(definition AST level) is tied to print_schema / build_ast_schema / extend_schema by a correspondence run "
-    "over generated schemas (SDL-built and programmatically assembled); the round-trip relations of the property "
-    "are evaluated directly on the implementation for every generated schema."
+    "omitting the `schema {}` block is proved consistent with build_ast_schema's root lookup by name. "
+    "Text level: print_schema is modelled down to the code points (printSchemaText: descriptions, blank lines, "
+    "argument wrapping, defaults through the print_ast value printer); proved with C08's lexer and C01's parser "
+    "model: the printed text lexes to exactly the tokens of the emitted definitions (text_lexes), parses to their "
+    "document (text_roundtrip), which read back as definitions is schemaToDefs s and builds back to the same schema "
+    "(text_roundtrip_defs, text_build_roundtrip), for every "
+    "well-formed schema whose printed definitions are well formed in C08's sense (TextWF). The models are tied to "
+    "print_schema / build_ast_schema / extend_schema by a correspondence run over generated schemas (SDL-built "
+    "and programmatically assembled), the text model code point for code point; the round-trip relations of the "
+    "property are evaluated directly on the implementation for every generated schema."
 )
 LEVEL_NOTE = (
-    "The theorems are about the structured definition AST, not about SDL text: the step definitions <-> text "
-    "(printer layout, block strings, quoted strings, parser) is NOT proved here; it is tied by the correspondence "
-    "(model definitions == parse(print_schema(s)) for every generated schema, adversarial descriptions included) "
-    "and by C08's print/parse round-trip result. Programmatic default values reach the model after the "
+    "The text theorems carry the hypothesis TextWF (the translated definitions satisfy C08's Exec.gdefsWf: valid "
+    "names, strings of Unicode scalar values, block descriptions representable, well-formed const default literals, "
+    "parser-shaped type references, enum values other than true/false/null, locations from the parser table, the "
+    "directives-on-directive-definitions flag when a directive is deprecated); it is a Prop, not derived from "
+    "WFSchema, and shown satisfiable on a schema using every definition kind and layout. The parsed tree is C08's "
+    "generic AST of typed document trees; gdefsToDefs reads those trees as C17's definition AST and is proved to give "
+    "back exactly schemaToDefs s when default values are proper literals (schemaShaped, decidable); the step generic "
+    "AST -> typed tree is C08's gdocAst (injective by construction, not separately proved). Programmatic default values reach the model after the "
     "implementation's value_to_literal/ast_from_value (C15). SDL validation (assert_valid_sdl) and validate_schema "
     "are not modelled (WFSchema is the part the theorems need); the rebuilt schema's validity is observed on the "
-    "implementation. Hand-written models tied by correspondence, not by translation."
+    "implementation. Hand-written models tied by correspondence, not by translation. A layout-only change of "
+    "print_schema breaks the text correspondence (the model must follow) although the property still holds."
 )
 TECHNIQUE = "Lean 4 proof about an executable model + differential correspondence + metamorphic oracles on the implementation"
 TRUSTED = [
     "hand-written Lean models Gql/Types/Schema.lean, SchemaAst.lean (schemaToDefs = print_schema at definition level, "
     "buildFromDefs = build_ast_schema/extend_schema builders), Diff.lean (find_schema_changes); tied to the code by the "
     "correspondence run",
-    "the text layer (printer/lexer/parser, print_block_string, print_string) — C08; here only exercised",
+    "hand-written Lean model Gql/Types/PrintSchemaText.lean (print_schema at text level); tied by the `text` correspondence stream",
+    "the lexer / parser / print_string / print_block_string models — C08 and C01's; reused by the text theorems",
     "tools/c17_gen.py: generator, schema -> content extraction (reads type_map, fields, get_default_value_ast), S-expression codec",
 ]
 ASSUMPTIONS = [
@@ -52,8 +64,10 @@ ASSUMPTIONS = [
 ]
 EXPLANATION = (
     "Theorems: build_schemaToDefs (buildFromDefs (schemaToDefs s) = ok s for WFSchema s), print_fixed_point, rebuilt_wf, "
-    "changes_roundtrip, changes_refl, schema_block_rule, schemaToDefs_injective, description_roundtrip, deprecation_roundtrip. "
-    "Correspondence: model definitions vs parse(print_schema), model build vs build_schema, WFSchema on every valid generated "
+    "changes_roundtrip, changes_refl, schema_block_rule, schemaToDefs_injective, description_roundtrip, deprecation_roundtrip, "
+    "text_lexes, text_roundtrip (parse (printSchemaText s) = document of schemaToDefs s), text_build_roundtrip, "
+    "text_roundtrip_defs (the parsed document read back as definitions = schemaToDefs s, and builds to s). "
+    "Correspondence: model text vs print_schema (code point for code point), model definitions vs parse(print_schema), model build vs build_schema, WFSchema on every valid generated "
     "schema, model changes vs find_schema_changes. Oracles: rebuild succeeds, validates, reprints identically, no changes both "
     "ways, content equal field by field, defaults coerce to the same values, programmatic defaults denote the given values."
 )
@@ -199,6 +213,8 @@ def check_schema(rep, schema, case, lines, meta, ir=None, ordered=True, sdl=None
             rep.disagreements.append(Disagreement("schema content vs generator", dict(case, at=path), path, "generator IR"))
     # correspondence lines
     sx = g.sx_schema(sir)
+    lines.append("text " + sx)
+    meta.append(("print_schema.text", inp, g.sx_str(text)))
     lines.append("defs " + sx)
     meta.append(("print_schema.defs", inp, g.sx_doc(g.parse_sdl(text))))
     lines.append("build " + g.sx_doc(g.parse_sdl(text)))
